@@ -218,8 +218,9 @@ Definition p_truncated (x : st) (i : input) : bool :=
   match i, s_state s, s_phase s with
   | IBackClose, SLinked, (PBody | PChunks | PTrailers) =>
     implb (s_ka s && negb (c_closed (snd x)))
-          (has_ev is_abort (evs x i) && negb (has_ev is_relay_end (evs x i))
-           && match s_phase (fst (nxt x i)) with PError => true | _ => false end)
+          (negb (has_ev is_relay_end (evs x i))
+           && ((has_ev is_abort (evs x i) && is_error (s_phase (fst (nxt x i))))
+               || has_ev is_default (evs x i)))
   | _, _, _ => true
   end.
 
@@ -288,10 +289,14 @@ Definition p_close_delim (x : st) (i : input) : bool :=
   implb (has_ev is_relay_end (evs x i) && negb (c_h2 (snd x)) && negb (s_ka (fst x)))
         (has_ev is_close (evs x i) && c_closed (snd (nxt x i))).
 
+(** an abort is only ever emitted once bytes of the response are on the wire *)
+Definition p_abort_started (x : st) (i : input) : bool :=
+  forallb (fun e => match e with EvAbort b => b | _ => true end) (evs x i).
+
 Definition p_all (x : st) (i : input) : bool :=
   p_monitor x i && p_relay_clean x i && p_clean_source x i && p_truncated x i && p_timer x i
   && p_front_timeout x i && p_back_close x i && p_connect x i && p_budget x i && p_armed x i
-  && p_close_delim x i.
+  && p_close_delim x i && p_abort_started x i.
 
 End WithRedirect.
 
@@ -385,7 +390,7 @@ Lemma split_p_all x i :
   p_monitor redir x i = true /\ p_relay_clean redir x i = true /\ p_clean_source redir x i = true /\
   p_truncated redir x i = true /\ p_timer redir x i = true /\ p_front_timeout redir x i = true /\
   p_back_close redir x i = true /\ p_connect redir x i = true /\ p_budget redir x i = true /\
-  p_armed redir x i = true /\ p_close_delim redir x i = true.
+  p_armed redir x i = true /\ p_close_delim redir x i = true /\ p_abort_started redir x i = true.
 Proof.
   unfold p_all; intros H.
   repeat (apply andb_true_iff in H as [H ?]). repeat split; assumption.
@@ -463,7 +468,7 @@ Proof.
       set (y := run_st redir (fresh, init_conn h2) hist).
       assert (Hy : In y reach0) by (apply run_st_in_reach, init_in_reach).
       pose proof (local redir y i Hy) as L. apply split_p_all in L.
-      destruct L as (_ & _ & _ & _ & _ & _ & _ & _ & L & _ & _).
+      destruct L as (_ & _ & _ & _ & _ & _ & _ & _ & L & _ & _ & _).
       unfold p_budget in L. apply Nat.leb_le in L. exact L.
 Qed.
 
@@ -530,8 +535,9 @@ Lemma no_truncated_as_complete_proof :
        i = IBackEnd \/ (i = IBackClose /\ s_ka (fst x) = false)) /\
     (i = IBackClose -> s_state (fst x) = SLinked -> s_ka (fst x) = true -> c_closed (snd x) = false ->
        (s_phase (fst x) = PBody \/ s_phase (fst x) = PChunks \/ s_phase (fst x) = PTrailers) ->
-       existsb is_abort (evs redir x i) = true /\ existsb is_relay_end (evs redir x i) = false /\
-       s_phase (fst (nxt redir x i)) = PError).
+       existsb is_relay_end (evs redir x i) = false /\
+       ((existsb is_abort (evs redir x i) && is_error (s_phase (fst (nxt redir x i))))
+        || existsb is_default (evs redir x i)) = true).
 Proof.
   intros redir h2 history i x.
   assert (Hx : In x reach0) by (apply run_st_in_reach, init_in_reach).
@@ -543,14 +549,24 @@ Proof.
     destruct i; try discriminate L2; auto.
     right; split; [reflexivity|]. destruct (s_ka (fst x)); [discriminate L2 | reflexivity].
   - intros -> Hs Hk Hc Hp. unfold p_truncated, has_ev in L3. rewrite Hs, Hk, Hc in L3.
-    assert (E : existsb is_abort (evs redir x IBackClose)
-                && negb (existsb is_relay_end (evs redir x IBackClose))
-                && match s_phase (fst (nxt redir x IBackClose)) with PError => true | _ => false end = true)
+    assert (E : negb (existsb is_relay_end (evs redir x IBackClose))
+                && ((existsb is_abort (evs redir x IBackClose) && is_error (s_phase (fst (nxt redir x IBackClose))))
+                    || existsb is_default (evs redir x IBackClose)) = true)
       by (destruct Hp as [Hp|[Hp|Hp]]; rewrite Hp in L3; exact L3).
-    clear L3. apply andb_true_iff in E as [E E3]. apply andb_true_iff in E as [E1 E2].
-    apply negb_true_iff in E2.
-    split; [exact E1 | split; [exact E2 |]].
-    destruct (s_phase (fst (nxt redir x IBackClose))); (reflexivity || discriminate).
+    clear L3. apply andb_true_iff in E as [E1 E2]. apply negb_true_iff in E1.
+    split; assumption.
+Qed.
+
+Lemma abort_only_after_start_proof :
+  forall (redir : option N) (h2 : bool) (history : list input) (i : input) (b : bool),
+    let x := run_st redir (fresh, init_conn h2) history in
+    In (EvAbort b) (evs redir x i) -> b = true.
+Proof.
+  intros redir h2 history i b x Hin.
+  assert (Hx : In x reach0) by (apply run_st_in_reach, init_in_reach).
+  pose proof (local redir x i Hx) as L. apply split_p_all in L.
+  destruct L as (_ & _ & _ & _ & _ & _ & _ & _ & _ & _ & _ & L).
+  unfold p_abort_started in L. rewrite forallb_forall in L. exact (L _ Hin).
 Qed.
 
 Lemma bounded_wait_proof :
@@ -567,7 +583,7 @@ Proof.
     set (y := run_st redir (fresh, init_conn h2) hist).
     assert (Hy : In y reach0) by (apply run_st_in_reach, init_in_reach).
     pose proof (local redir y i Hy) as L. apply split_p_all in L.
-    destruct L as (_ & _ & _ & _ & L1 & _ & _ & _ & _ & L2 & _).
+    destruct L as (_ & _ & _ & _ & L1 & _ & _ & _ & _ & L2 & _ & _).
     split.
     + intros Hc. unfold p_timer in L1. rewrite Hc in L1. exact L1.
     + intros Hc Hp Hm. unfold p_armed in L2. rewrite Hc, Hp, Hm in L2. cbn in L2.
@@ -583,7 +599,7 @@ Proof.
   intros redir h2 history i x Hr Hh Hk.
   assert (Hx : In x reach0) by (apply run_st_in_reach, init_in_reach).
   pose proof (local redir x i Hx) as L. apply split_p_all in L.
-  destruct L as (_ & _ & _ & _ & _ & _ & _ & _ & _ & _ & L).
+  destruct L as (_ & _ & _ & _ & _ & _ & _ & _ & _ & _ & L & _).
   unfold p_close_delim, has_ev in L. rewrite Hr, Hh, Hk in L. cbn in L.
   apply andb_true_iff in L. exact L.
 Qed.
